@@ -1652,7 +1652,7 @@ Example schemaless_der_reencode_nonvacuous :
 Proof.
   cbv zeta. split; [vm_compute; reflexivity|]. split; [vm_compute; reflexivity|].
   eexists. split; [vm_compute; reflexivity|]. split; [vm_compute; discriminate|].
-  eexists; eexists. split; vm_compute; reflexivity.
+  eexists; eexists. split; [vm_compute; reflexivity | vm_compute; reflexivity].
 Qed.
 
 (* what the decoder guesses: SEQUENCE OF comes back as a SEQUENCE of as many components; SET OF as
